@@ -425,7 +425,7 @@ def c11(tier, seed):
     prog = load_program()
     ck.selftest = quick_selftest(prog, seed, 12 if tier == 'quick' else 150)
     if tier == 'quick':
-        pairs, bufs = ['same_mem', 'two_mem', 'same_alt', 'mem_to_alt', 'same_ovl'], (2,)
+        pairs, bufs = ['same_mem', 'two_mem', 'same_alt', 'mem_to_alt', 'same_ovl', 'same_phys', 'phys_to_mem'], (2,)
     else:
         pairs, bufs = transfer.PAIRS, (1, 2)
     cases = transfer.transfer_cases(pairs, ['C11'], tier, seed, bufs)
@@ -487,7 +487,8 @@ def c19(tier, seed):
     ck.bounds = {'configs': ['mem', 'alt', 'ovl_upper', 'ovl_lower', 'phys', 'alt_phys'], 'entries': 'a file, a directory, the filesystem root',
                  'setter_sequence_length': 2 if tier == 'quick' else 3,
                  'time_values': 'any 64-bit instant (solver variable); SystemTime::now = fresh symbolic instant',
-                 'not_encoded': 'PhysicalFS/filetime (utimensat) and its NotSupported creation-time path'}
+                 'physical': 'PhysicalFS and AltrootFS over it run on the OS model (filetime::set_file_mtime/atime as stores into the modelled inode; creation time NotSupported); counterexamples are replayed on a real directory',
+                 'not_encoded': 'sub-second truncation of a real filesystem, other platforms'}
     ck.assumptions = COMMON_ASSUMPTIONS[:4] + ['SystemTime is an opaque 64-bit instant compared by equality/order']
     ck.rule = 'a state = (configuration, entry kind); transitions = all sequences of setters of the bounded length with symbolic instants'
     return ck.finish(prog)
